@@ -409,7 +409,13 @@ impl Error {
 
     /// Returns whether or not this error is fatal.
     pub const fn is_fatal(&self) -> bool {
+        // An unset variable met under `set -u` while evaluating an arithmetic expression is as
+        // fatal as one met in a plain parameter expansion.
         self.fatal
+            || matches!(
+                self.kind,
+                ErrorKind::EvalError(crate::arithmetic::EvalError::ExpandingUnsetVariable(_))
+            )
     }
 
     /// Returns a reference to the error kind.
